@@ -129,7 +129,7 @@ class Taint:
                 if m is not None and m.get("k") == "match" and m.get("src") == "ForLoopDesugar":
                     return self.effects(f, c, m, seen, depth)
                 return self.fate(f, c, p, seen, depth + 1)
-            if p.get("ctor") or fb.last_seg(cal) in ("Some", "Ok", "Err", "from", "new"):
+            if p.get("ctor") or fb.last_seg(cal) in ("Some", "Ok", "Err", "from", "new", "catch_unwind"):
                 return self.fate(f, c, p, seen, depth + 1)
             if cal.endswith(("HashSet::from_iter", "HashMap::from_iter", "FromIterator::from_iter")) and is_unordered_result(p.get("ty")):
                 return {"ok:collect-into-map/set"}
@@ -320,6 +320,8 @@ AUDITED = {
     ("iwes::main", "stored-in-struct:lsp_types::CodeActionOptions"): "advertised action kinds in capability list; a set for the client",
     ("iwes::router::server::Server::handle_code_action_resolve", "order-sensitive:find"): "find by action kind over the offered actions; kinds are unique (built-ins are fixed, configured ones are keyed by their map key), so the match does not depend on order",
     ("iwes::router::Router::on_request", "stored-in-struct:lsp_server::Response"): "the code-action list of handle_code_action (see there): order of offered actions is not an observable named by C16",
+    ("iwes::router::Router::on_request", "escapes:arg-of-Response::new_err"): "the Err side (error code, message) of handle_request's result; the taint engine does not separate Ok/Err payloads of a matched Result",
+    ("iwes::router::Router::handle_request", "returns"): "the code-action list of handle_code_action (see there), serialised into the response value",
 }
 
 
@@ -411,7 +413,7 @@ def rule_r2(facts, rep, rid="C16-R2"):
 
 NONDET = [
     ("rand::", {"<&liwe::graph::Graph as liwe::graph::GraphContext>::random_key"}, "random note names"),
-    ("uuid::", {"iwes::router::Router::on_request"}, "id of the server-initiated workspace/applyEdit request"),
+    ("uuid::", {"iwes::router::Router::on_request", "iwes::router::Router::handle_request"}, "id of the server-initiated workspace/applyEdit request"),
     ("std::time::SystemTime::now", set(), ""),
     ("std::time::Instant::now", set(), ""),
     ("std::fs::read_dir", {"liwe::fs::new_for_path_rec"}, "directory listing flows into a State map (order-insensitive)"),
